@@ -5,7 +5,7 @@ MC : specs/net/IOStreamContract.tla restricted to the read side (Read / Deliver 
      sequence of the read kinds (fixed, partial, into, until / regex with and without max_bytes,
      until-close); invariants ReadDataIsStreamSegment, PendingMeansUnsatisfied, action properties
      ConsumedOnlyByReads, MaxBytesRespected.
-S2C: every path of length <= L through the TLC state graph is replayed on a real BaseIOStream
+S2C: every path of length <= 4 (thorough: longer streams, 3-byte deliveries, more read kinds) through the TLC state graph is replayed on a real BaseIOStream
      over the in-memory transport (read_chunk_size 1/2/3/default, so deliveries straddle the
      stream's own chunking); the projection is compared after every step.  The specification is
      nondeterministic where the contract is (length of a partial read, what is still buffered at
@@ -25,14 +25,16 @@ def run(ctx):
     ctx.mc("net", "IOStreamContract", "MC_IOStreamRead.cfg",
            overrides=ctx.pick({}, {"MaxStream": 5}),
            required_actions=["Read", "Deliver", "Cond", "CloseLocal"])
-    L = ctx.pick(4, 5)
+    L = 4
     variants = ctx.pick(nd.VARIANTS[:2], nd.VARIANTS)
-    net_common.s2c_stream(ctx, "GenG_IOStreamRead.cfg", {"L": L}, variants,
+    net_common.s2c_stream(ctx, "GenG_IOStreamRead.cfg",
+                          ctx.pick({"L": L}, {"L": L, "MaxStream": 5, "MaxChunk": 3, "ReadIds": "{1, 3, 4, 7, 10, 11, 12, 13, 17, 19, 23, 25}", "Alphabet": "{97, 10, 13}"}),
+                          variants,
                           nontrivial=lambda e, p: len(p) >= 2 and any(s["act"] == "read" for s in p))
     # longer streams / bigger deliveries with the max_bytes reads followed by other kinds (no close ops)
-    net_common.s2c_stream(ctx, "GenG_IOStreamStale.cfg", {"L": L}, variants[:1], label="s2c")
+    net_common.s2c_stream(ctx, "GenG_IOStreamStale.cfg", {"L": ctx.pick(4, 5)}, variants[:1], label="s2c")
     ctx.cov["exhaustive"] = True
-    net_common.c2s_stream(ctx, "read", n=ctx.pick(150, 6000))
+    net_common.c2s_stream(ctx, "read", n=ctx.pick(150, 3000))
     ctx.cov["rule"] = ("paths: every sequence of read(kind)/deliver(chunk<=2 over {a,LF})/eof/close of length <= %d "
                        "through the TLC state graph, each replayed under %d transport variants; plus seeded random "
                        "recorded read programs validated by TLC; distinct = distinct (config, operation sequence, "
